@@ -17,7 +17,7 @@ ASSUMPTIONS = [
     "distance is judged as computed in float64 (|g - v| rounded); an exactly-nearest element is always accepted",
     "values are finite; grids are sorted ascending",
 ]
-REQUIRED_COUNTERS = {"values_checked": 1000, "midpoint_probes": 50, "outside_probes": 50, "digitize_columns": 10}
+REQUIRED_COUNTERS = {"digitize_same_endpoint_families": 30, "values_checked": 1000, "midpoint_probes": 50, "outside_probes": 50, "digitize_columns": 10}
 SHARDS = {"quick": 8, "thorough": 16}
 
 
@@ -138,6 +138,15 @@ def run_case(desc, ctx):
     d = int(rng.integers(1, 7))
     rows = int(rng.integers(0, 51))
     grids = [grid] + [make_grid(str(rng.choice(["arange", "dyadic", "random", "repeated"])), rng) for _ in range(d - 1)]
+    if desc["i"] % 2 and len(grid) >= 3 and grid[-1] > grid[0]:
+        # columns whose grids share length and both end points but differ inside (each column must still use its own grid)
+        n, a, b = len(grid), grid[0], grid[-1]
+        fam = [grid]
+        for _ in range(d - 1):
+            t = np.sort(rng.random(n - 2)) if rng.random() < 0.5 else np.linspace(0, 1, n)[1:-1] ** float(rng.choice([0.5, 2.0, 3.0]))
+            fam.append(np.concatenate([[a], a + (b - a) * t, [b]]))
+        grids = fam
+        c["digitize_same_endpoint_families"] = 1
     data = np.empty((rows, d))
     for j, g in enumerate(grids):
         v, _ = probes(g, rng)
